@@ -240,7 +240,7 @@ theorem runOp_ok (cls : Cls) (kvs : List (Str × Val)) (op : Op) (t' : Val) (fue
     have h1 := setItem_existing cls kvs p c v t' hp hne hget ha fuel hf
     simp only [runOp, opPath, h1, obsOp]
   | create q s steps v =>
-    obtain ⟨hp, hfirst, hsteps, hg, hencl⟩ := hv
+    obtain ⟨hp, hfirst, hsteps, _, _⟩ := hv
     simp only [applyOp, createRef] at ha
     cases hget : getAt (.dict cls kvs) q with
     | none => simp [hget] at ha
@@ -249,7 +249,8 @@ theorem runOp_ok (cls : Cls) (kvs : List (Str × Val)) (op : Op) (t' : Val) (fue
       | none => simp [hget, hc] at ha
       | some cur' =>
         simp only [hget, hc, Option.bind] at ha
-        have h1 := setItem_create_any cls kvs q cur cur' s steps v t' fuel hp hget hfirst hsteps hg hc ha hencl hf
+        have h1 := setItem_create_any cls kvs q cur cur' s steps v t' fuel hp hget hfirst
+          (fun x hx => CStep.laterW_of_later (hsteps x hx)) (GW_of_later s steps hsteps) hc ha hf
         simp only [runOp, opPath, h1, obsOp]
   | del p r =>
     obtain ⟨hp, hne, c, hget⟩ := hv
